@@ -261,8 +261,10 @@ func (x *Exec) hookEvent(st *State, fr *Frame, kind, key string, args []Val, ret
 		if h.Kind != kind || !x.matchKey(h.Pattern, key) {
 			continue
 		}
-		env := x.envFor(st, x.topFrame(fr))
-		x.bindActiveLoopVars(env, st, x.topFrame(fr))
+		tf := x.topFrame(fr)
+		tf.scopePos = x.topPos(fr, pos)
+		env := x.envFor(st, tf)
+		x.bindActiveLoopVars(env, st, tf)
 		for i, a := range args {
 			env.vars[fmt.Sprintf("arg%d", i)] = a
 		}
@@ -276,6 +278,19 @@ func (x *Exec) hookEvent(st *State, fr *Frame, kind, key string, args []Val, ret
 			st.assumeAfter("mon", c.Label, g)
 		}
 	}
+}
+
+// topPos maps the position of an event to the function under contract: an event inside an inlined callee is attributed
+// to the call site in the top frame, where the clause's names are resolved.
+func (x *Exec) topPos(fr *Frame, pos token.Pos) token.Pos {
+	if fr.parent == nil {
+		return pos
+	}
+	f := fr
+	for f.parent != nil && f.parent.parent != nil {
+		f = f.parent
+	}
+	return f.callPos
 }
 
 func (x *Exec) topFrame(fr *Frame) *Frame {
@@ -294,8 +309,10 @@ func (x *Exec) hookAfter(st *State, fr *Frame, kind, key string, args []Val, ret
 		if h.Kind != kind || !x.matchKey(h.Pattern, key) {
 			continue
 		}
-		env := x.envFor(st, x.topFrame(fr))
-		x.bindActiveLoopVars(env, st, x.topFrame(fr))
+		tf := x.topFrame(fr)
+		tf.scopePos = x.topPos(fr, pos)
+		env := x.envFor(st, tf)
+		x.bindActiveLoopVars(env, st, tf)
 		for i, a := range args {
 			env.vars[fmt.Sprintf("arg%d", i)] = a
 		}
@@ -876,6 +893,7 @@ func (x *Exec) atReturn(st *State, fr *Frame, rv Val, pos token.Pos) {
 	x.countPath()
 	x.retCover++
 	fc := x.contract
+	fr.scopePos = pos
 	env := x.envFor(st, fr)
 	sig := fr.fn.Signature
 	_, rn := x.contractNames(orEmpty(fc), fr.fn, sig, len(fr.params))
